@@ -164,6 +164,14 @@ func newRPCEnv(c *wk.Ctx, idx int, r *rand.Rand, o envOpts) (*rpcEnv, error) {
 	e.sess = e.w.sessionPath("s")
 	if !o.Fresh {
 		e.key = rbytes(r, 256)
+		switch idx % 9 {
+		case 4:
+			e.key = cornerKey("head") // key id 00000000xxxxxxxx
+			c.Count("auth_key.key_id_starts_with_4_zero_bytes", 1)
+		case 7:
+			e.key = cornerKey("tail") // key id xxxxxxxx00000000
+			c.Count("auth_key.key_id_ends_with_4_zero_bytes", 1)
+		}
 		salt := int64(r.Uint64())
 		e.w.keys.Add(e.key)
 		e.srv.SetSalt(e.key, salt)
